@@ -11,7 +11,7 @@
     [refs_ok c] (round 3, groups and [requires]): group ids are unique, every group member is an argument,
     every id named by a [requires] rule of an argument or of a group exists -- what debug_asserts.rs checks. *)
 From ClapModel Require Import Base.Bytes Base.Machine Parse.Cmd Parse.Build Parse.Valid Parse.Matcher Parse.Errors Parse.Validator Parse.Parser.
-From ClapModel Require Import Gen.HelpTables Help.UsageModel Help.HelpModel Help.HelpReqs Help.HelpProofs Help.HelpLevel Help.HelpSpecVals Help.HelpDispatch Help.HelpUsage Help.HelpGlobals.
+From ClapModel Require Import Gen.HelpTables Help.UsageModel Help.HelpModel Help.HelpReqs Help.HelpProofs Help.HelpLevel Help.HelpSpecVals Help.HelpDispatch Help.HelpUsage Help.HelpGlobals Help.HelpTemplate.
 From RecordUpdate Require Import RecordSet.
 Import RecordSetNotations.
 Open Scope N_scope.
@@ -46,7 +46,7 @@ Print Assumptions C12_lists_visible_args.
 Theorem C12_lists_visible_subs : forall dw c use_long w s sc,
   NoDup (map sc_str (hc_subs c)) -> write_help dw c use_long w = Some s ->
   In sc (hc_subs c) -> hc_hide sc = false -> hc_name sc <> s_help ->
-  exists sec r, In sec (scr_sections s) /\ s_title sec = s_commands /\ In r (s_rows sec) /\ r_id r = hc_name sc.
+  exists sec r, In sec (scr_sections s) /\ s_title sec = sub_section_title c /\ In r (s_rows sec) /\ r_id r = hc_name sc.
 Proof. exact lists_visible_subs. Qed.
 Print Assumptions C12_lists_visible_subs.
 
@@ -339,3 +339,66 @@ Theorem C12_globals_satisfiable :
     /\ map ha_id (hc_args lv) = [[111]; [103]; s_help].
 Proof. exact gl_cmd_level. Qed.
 Print Assumptions C12_globals_satisfiable.
+
+(** ---- round 3: custom help templates ([Command::help_template], [write_templated_help]) ---- *)
+
+(** for EVERY template text, rendering a built command whose references resolve does not panic *)
+Theorem C12_template_total : forall dw cx c t, cmd_ok dw c -> refs_ok c = true -> write_templated_help dw cx c t <> None.
+Proof. exact template_total. Qed.
+Print Assumptions C12_template_total.
+
+(** the tags dispatch to the writers of the default template: [{options}] = [write_args] over ALL arguments that
+    are not positional (custom headings included), [{positionals}] = [write_args] over the positionals,
+    [{subcommands}] = [write_subcommands], [{all-args}] = [write_all_args] -- each with its visibility filter *)
+Theorem C12_template_tag_dispatch : forall dw cx c,
+  write_tag dw cx c t_options
+    = (dO rows <- write_args dw cx (filter (fun a => negb (ha_is_positional a)) (hc_args c)) option_sort_key; Some (TPOptions rows))
+  /\ write_tag dw cx c t_positionals
+    = (dO rows <- write_args dw cx (filter ha_is_positional (hc_args c)) positional_sort_key; Some (TPPositionals rows))
+  /\ write_tag dw cx c t_subcommands = (dO rows <- write_subcommands dw cx c; Some (TPSubcommands rows))
+  /\ write_tag dw cx c t_all_args = (dO secs <- write_all_args dw cx c; Some (TPAllArgs secs)).
+Proof. intros dw cx c. exact (conj (tag_options dw cx c) (conj (tag_positionals dw cx c) (conj (tag_subcommands dw cx c) (tag_all_args dw cx c)))). Qed.
+Print Assumptions C12_template_tag_dispatch.
+
+(** hidden-absent, for every template and every tag: each row any piece of the rendered template contains comes
+    from an argument shown in the rendered mode (listing only possible values that are not hidden) or from a
+    subcommand that is not hidden *)
+Theorem C12_template_hides_hidden : forall dw cx c t ps p r,
+  cmd_ok dw c -> write_templated_help dw cx c t = Some ps -> In p ps -> In r (piece_rows p) ->
+  (exists a, In a (hc_args c) /\ should_show_arg (cx_use_long cx) a = true /\ r_id r = ha_id a
+             /\ forall v, In v (r_pvs r) -> exists pv, In pv (ha_pvs a) /\ pv_hide pv = false /\ pv_name pv = v)
+  \/ (exists sc, In sc (hc_subs c) /\ hc_hide sc = false /\ r_id r = hc_name sc /\ r_pvs r = []).
+Proof. exact template_hides_hidden. Qed.
+Print Assumptions C12_template_hides_hidden.
+
+(** visible-listed, per tag: the output of [{options}] has a row for every shown argument that is not positional,
+    [{positionals}] for every shown positional, [{subcommands}] for every subcommand that is not hidden,
+    [{all-args}] for every shown argument (in its section) and every visible subcommand *)
+Theorem C12_template_lists_visible : forall dw cx c t ps,
+  NoDup (map ha_id (hc_args c)) -> NoDup (map sc_str (hc_subs c)) ->
+  write_templated_help dw cx c t = Some ps ->
+  (forall rows a, In (TPOptions rows) ps -> In a (hc_args c) -> ha_is_positional a = false ->
+                  should_show_arg (cx_use_long cx) a = true -> exists r, In r rows /\ r_id r = ha_id a)
+  /\ (forall rows a, In (TPPositionals rows) ps -> In a (hc_args c) -> ha_is_positional a = true ->
+                     should_show_arg (cx_use_long cx) a = true -> exists r, In r rows /\ r_id r = ha_id a)
+  /\ (forall rows sc, In (TPSubcommands rows) ps -> In sc (hc_subs c) -> hc_hide sc = false ->
+                      exists r, In r rows /\ r_id r = hc_name sc)
+  /\ (forall secs a, In (TPAllArgs secs) ps -> In a (hc_args c) -> should_show_arg (cx_use_long cx) a = true ->
+                     exists sec r, In sec secs /\ s_title sec = arg_section_title a /\ In r (s_rows sec) /\ r_id r = ha_id a)
+  /\ (forall secs sc, In (TPAllArgs secs) ps -> In sc (hc_subs c) -> hc_hide sc = false -> hc_name sc <> s_help ->
+                      exists sec r, In sec secs /\ s_title sec = sub_section_title c /\ In r (s_rows sec) /\ r_id r = hc_name sc).
+Proof. exact template_lists_visible. Qed.
+Print Assumptions C12_template_lists_visible.
+
+(** non-vacuity: ["U {usage}|O:{options}|P:{positionals}|S:{subcommands}|{zz}{all-args}{open"] on [ex_cmd] (whose
+    hypotheses are [C12_hypotheses_satisfiable]): the hidden [--hi] and the hidden subcommand [t] are in no piece *)
+Theorem C12_template_example :
+  option_map (map tp_shape) (write_templated_help len (mkCtx false 80 false) (h_build_self ex_cmd) tp_template)
+  = Some [ ([116], [[85; 32]]); ([117], [[112]; s_options_tag; [60; 102; 62]; [91; 67; 79; 77; 77; 65; 78; 68; 93]]);
+           ([116], [[124; 79; 58]]); ([111], [[111]; [118]; s_help; s_version]);
+           ([116], [[124; 80; 58]]); ([112], [[102]]);
+           ([116], [[124; 83; 58]]); ([115], [[115]; s_help]);
+           ([116], [[124]]); ([116], [[123; 122; 122; 125]]); ([116], [[]]);
+           ([97], [s_commands; s_arguments; s_options; [72]]); ([116], [[]]) ].
+Proof. exact tp_renders. Qed.
+Print Assumptions C12_template_example.
